@@ -282,6 +282,10 @@ class Engine:
         self.solver.push()
         self.solver.add(c)
         r = self._check(self.FEAS_TIMEOUT_MS)
+        if r == z3.unknown and not self.quantified:
+            # a busy machine must not change which paths are explored: one retry with a budget that an unquantified
+            # query only exceeds when it is hard by itself (quantified ones stay unknown whatever the budget)
+            r = self._check(self.FEAS_TIMEOUT_MS * 10)
         self.solver.pop()
         if r == z3.unknown:
             self.stats["feas_unknown"] = self.stats.get("feas_unknown", 0) + 1
